@@ -47,7 +47,24 @@ if not demofiles and place:
                 shutil.copy(os.path.join(dp, fn), dst)
                 demofiles = [fn]
 conf = {}
+# demonstrations that consist of several files: meta.demo.files {"_seed/<file>": "<path in the repository>"} or a
+# directory demo/ that mirrors the repository layout
+multi = {}
+for k, v in (demo.get("files") or {}).items() if isinstance(demo.get("files"), dict) else []:
+    f = os.path.join(dst, os.path.basename(k))
+    if os.path.exists(f):
+        multi[f] = v
+if os.path.isdir(os.path.join(dst, "demo")):
+    for dp, _, fns in os.walk(os.path.join(dst, "demo")):
+        for fn in fns:
+            if fn.endswith(".go"):
+                multi[os.path.join(dp, fn)] = os.path.relpath(os.path.join(dp, fn), os.path.join(dst, "demo"))
 try:
+    if multi:
+        for f, rel in multi.items():
+            os.makedirs(os.path.dirname(os.path.join(wt, rel)), exist_ok=True)
+            shutil.copy(f, os.path.join(wt, rel))
+        place, demofiles = "", []
     if place and demofiles:
         target = os.path.join(wt, place)
         if place.endswith(".go"):
@@ -77,6 +94,8 @@ try:
     conf["confirmed"] = ok
     print("seed %s: demo without change rc=%d, with change rc=%d, build rc=%d -> %s" % (sid, rc0, rc1, rcb, "CONFIRMED" if ok else "NOT CONFIRMED"))
     # remove the demo file(s) so that the harness builds only see the source change
+    for rel in multi.values():
+        os.remove(os.path.join(wt, rel))
     if place and demofiles:
         if place.endswith(".go"):
             os.remove(os.path.join(wt, place))
